@@ -26,14 +26,14 @@ META = {
     "specs": ["HtmlAst", "HtmlAstTrace"],
 }
 
-ATTR_TEXT = {0: "", 1: ' class="c"', 2: ' class="c d" id="i"'}
-ATTR_OF = {(): 0, (("class", "c"),): 1, (("class", "c d"), ("id", "i")): 2}
+ATTR_TEXT = {0: "", 1: ' class="c"', 2: ' class="c d" id="i"', 3: ' alt=""'}
+ATTR_OF = {(): 0, (("class", "c"),): 1, (("class", "c d"), ("id", "i")): 2, (("alt", ""),): 3}
 TERM = {"comment": "<!--x-->", "decl": "<!DOCTYPE x>", "pi": "<?x>", "char": "&#38;", "entity": "&amp;"}
-FULL = ([["start", "a", 0], ["start", "a", 1], ["start", "b", 2], ["start", "img", 0], ["start", "img", 1],
+FULL = ([["start", "a", 0], ["start", "a", 1], ["start", "b", 2], ["start", "img", 3], ["start", "img", 1],
          ["startend", "a", 0], ["startend", "b", 1], ["end", "a"], ["end", "b"], ["end", "img"],
          ["data", "t"], ["data", "w"]] + [[k] for k in TERM])
 STRUCT = [["start", "a", 0], ["start", "b", 1], ["start", "img", 0], ["end", "a"], ["end", "b"], ["end", "img"],
-          ["data", "t"], ["data", "w"], ["startend", "a", 1]]
+          ["data", "t"], ["data", "w"], ["startend", "a", 3]]
 
 
 def ev_text(e) -> str:
